@@ -8,6 +8,9 @@ Part P: ordering rulebooks O of a grammar (<= 3 sibling rules with pairwise disj
 Part N: the same with a patching head that merely begins with the vendor's negation word (node / undoer).
 Part L: shipped .order files: for every sample of the shipped patch corpus, deleting one top-level row that is
         identical in old and new leaves the command list unchanged.
+Part G: `annet gen` end to end (annet.gen.worker through mc/e2e.py) on every corpus sample's new tree, split over two
+        generators: the printed configuration holds exactly the generated rows at every depth (with --acl-safe: those
+        of the safe generator), and ordering it again changes nothing.
 Part C: Orderer.from_hw(hw).order_config(t) for all vendors x forests over rows drawn from that vendor's .order
         file: same rows at every depth, idempotent, rows no rule mentions keep their relative order.
 """
@@ -417,6 +420,61 @@ def run_c(block, ctx):
     ctx.sample({"part": "C", "vendor": v, "rows": rows})
 
 
+def check_gen_e2e(sample, acl_safe, report):
+    from annet.annlib.tabparser import parse_to_tree
+    from annet.patching import Orderer
+    from mc import e2e
+    from checks.c09_cmdstream import split_new
+    case = {"part": "G", "sample": sample["name"], "acl_safe": acl_safe}
+    unsafe, safe = split_new(sample["new"])
+    if any(p[-1].startswith("/*") for p in e2e.paths_of(sample["new"])):
+        return "annotation-rows"        # '/* ... */' rows are what annotations parse to, not something a generator yields
+    with e2e.Session(sample["model"], [], [(unsafe, False), (safe, True)]) as ss:
+        try:
+            out = ss.gen(acl_safe)
+        except Exception as e:  # noqa
+            report({"kind": "e2e-gen-raises", "exc": type(e).__name__}, case, repr(e)[:300])
+            return "raises"
+        hw, vendor = ss.dev.hw, ss.vendor
+    want = safe if acl_safe else e2e.union_forest(unsafe, safe)
+    if not out:
+        if want:
+            report({"kind": "e2e-gen-prints-nothing"}, case, "expected rows %r" % (want[:2],))
+        return "empty"
+    if len(out) != 1:
+        report({"kind": "e2e-gen-output-shape"}, case, repr([o[0] for o in out]))
+        return "shape"
+    fmt = env.vendor_obj(vendor).make_formatter()
+    tree = parse_to_tree(out[0][1], fmt.split)
+    if to_list(env.to_odict(want)) and unordered(to_list(tree)) != unordered(to_list(env.to_odict(want))):
+        miss = sorted(e2e.paths_of(want) - e2e.paths_of(tree))[:3]
+        extra = sorted(e2e.paths_of(tree) - e2e.paths_of(want))[:3]
+        # texts that do not parse back to the tree (vendor syntax outside the round-trip domain) are C04's topic
+        direct = parse_to_tree(fmt.join(env.to_odict(want)), fmt.split)
+        if unordered(to_list(direct)) == unordered(to_list(env.to_odict(want))):
+            report({"kind": "e2e-gen-rows-differ", "acl_safe": acl_safe}, case, "missing=%r extra=%r" % (miss, extra))
+            return "rows-differ"
+        return "not-representable"
+    again = Orderer.from_hw(hw).order_config(tree)
+    if to_list(again) != to_list(tree):
+        report({"kind": "e2e-gen-output-not-ordered", "vendor": vendor}, case, "printed=%r ordered again=%r" % (to_list(tree), to_list(again)))
+    return "ok"
+
+
+def run_g(block, ctx):
+    S = corpus.samples()
+    for si in range(block["i"], len(S), block["of"]):
+        for acl_safe in (0, 1):
+            if ctx.expired():
+                return
+            label = check_gen_e2e(S[si], acl_safe, ctx.violation)
+            ctx.evals += 2
+            ctx.states += 1
+            ctx.nontrivial += int(label == "ok" and len(S[si]["new"]) > 1)
+            ctx.outcomes["G:%s" % label] += 1
+            ctx.extra["e2e_runs"] += 1
+
+
 # ---------------------------------------------------------------------------------------------------
 def blocks(tier, seed):
     out = []
@@ -432,11 +490,13 @@ def blocks(tier, seed):
         out.append({"part": "L", "i": i, "of": 16})
     for v in env.ALL_VENDORS:
         out.append({"part": "C", "vendor": v})
+    for i in range(8):
+        out.append({"part": "G", "i": i, "of": 8})
     return out
 
 
 def run_block(block, ctx):
-    {"P": run_p, "N": run_n, "L": run_l, "C": run_c}[block["part"]](block, ctx)
+    {"P": run_p, "N": run_n, "L": run_l, "C": run_c, "G": run_g}[block["part"]](block, ctx)
 
 
 def replay(case):
@@ -451,6 +511,8 @@ def replay(case):
                 prefix_word_rules(VENDOR_PREFIX[case["vendor"]])[0])
     elif case["part"] == "C":
         judge_c(case["vendor"], case["forest"], rep)
+    elif case["part"] == "G":
+        check_gen_e2e(next(x for x in corpus.samples() if x["name"] == case["sample"]), case["acl_safe"], rep)
     else:
         s = next(x for x in corpus.samples() if x["name"] == case["sample"])
         base = corpus_patch(s["model"], s["old"], s["new"])
